@@ -88,7 +88,8 @@ class Step:
 
 
 class Scn:
-    def __init__(self, world, flavour="sync", api=None, env=None):
+    def __init__(self, world, flavour="sync", api=None, env=None, cache_dir=None):
+        self.cache_dir = cache_dir or CACHE
         self.w = world
         self.flavour = flavour
         self.api = api or ("sync" if flavour == "sync" else "async")
@@ -199,7 +200,7 @@ class Scn:
         return self._record(op, api, params, out)
 
     def cache(self):
-        return path_arg(CACHE)
+        return path_arg(self.cache_dir)
 
     def _opts(self, opts):
         """Build a WriteOpts value through the real builder methods."""
@@ -706,6 +707,8 @@ class Concretiser:
 
     def step(self, st):
         d = {"op": st.op.replace("_default", "").replace("create_with_algo", "create").replace("link_commit", "commit"), "api": st.api}
+        if self.scn.cache_dir != CACHE:
+            d["cache"] = self.path(self.scn.cache_dir)
         for k, v in st.params.items():
             if k in ("data",):
                 d[k] = self.data_spec(v)
